@@ -435,7 +435,19 @@ func runC09(c *Ctx, r *Report) {
 	// ---- R-C09.4
 	pq := p.FuncI("entry", "Fetcher", "processQueue")
 	nadm := 0
-	for _, fn := range p.AllViews(pq) {
+	admFns := p.AllViews(pq)
+	// a worker that is a method of its own rather than a closure: go f.runTask(…)
+	walkNoLit(pq.Body, func(n ast.Node) bool {
+		if g, ok := n.(*ast.GoStmt); ok {
+			if _, isLit := ast.Unparen(g.Call.Fun).(*ast.FuncLit); !isLit {
+				if cf := p.Callee(pq, g.Call); cf != nil && p.firstParty(cf.Pkg()) && p.ByObj[cf] != nil {
+					admFns = append(admFns, p.AllViews(p.Inl(p.ByObj[cf]))...)
+				}
+			}
+		}
+		return true
+	})
+	for _, fn := range admFns {
 		walkNoLit(fn.Body, func(n ast.Node) bool {
 			as, ok := n.(*ast.AssignStmt)
 			if !ok || len(as.Rhs) != 1 {
